@@ -197,7 +197,7 @@ inline std::vector<Kind> io_kinds() {
     for (int gate_api = 0; gate_api < 2; gate_api++) {
       Kind k; k.name = gate_api ? "GateCiphertext" : "LweSample";
       k.make = [gate_api](IoGen &g, int sz) { HP h(new Holder);
-          if (!gate_api) { LweParams *p = new_LweParams(sz == 0 ? 3 : 1 + g.rng.below(700), g.alpha(), g.alpha()); LweSample *s = new_LweSample(p); fill_lwe_sample(g, s, p->n);
+          if (!gate_api) { LweParams *p = new_LweParams(sz == 0 ? 3 : sz == 3 ? 6000 : 1 + g.rng.below(700), g.alpha(), g.alpha()); LweSample *s = new_LweSample(p); fill_lwe_sample(g, s, p->n);
               h->obj = s; h->aux = p; h->dtors.push_back([p] { delete_LweParams(p); }); h->dtors.push_back([s] { delete_LweSample(s); }); }
           else { PSet *ps = make_pset(g, sz); LweSample *s = new_gate_bootstrapping_ciphertext(ps->gb); fill_lwe_sample(g, s, ps->n);
               h->obj = s; h->aux = ps->lwe; h->aux2 = ps->gb; h->dtors.push_back([ps] { delete ps; }); h->dtors.push_back([s] { delete_gate_bootstrapping_ciphertext(s); }); }
@@ -216,7 +216,7 @@ inline std::vector<Kind> io_kinds() {
       K.push_back(k); }
     // ---- LweKey
     { Kind k; k.name = "LweKey";
-      k.make = [](IoGen &g, int sz) { HP h(new Holder); LweParams *p = new_LweParams(sz == 0 ? 3 : 1 + g.rng.below(1200), g.alpha(), g.alpha()); LweKey *key = new_LweKey(p);
+      k.make = [](IoGen &g, int sz) { HP h(new Holder); LweParams *p = new_LweParams(sz == 0 ? 3 : sz == 3 ? 5000 : 1 + g.rng.below(1200), g.alpha(), g.alpha()); LweKey *key = new_LweKey(p);
           for (int i = 0; i < p->n; i++) key->key[i] = (int32_t) g.rng.below(2); h->obj = key; h->dtors.push_back([p] { delete_LweParams(p); }); h->dtors.push_back([key] { delete_LweKey(key); }); return h; };
       k.exp_s = [](std::ostream &o, const Holder &h) { export_lweKey_toStream(o, (LweKey *) h.obj); };
       k.exp_f = [](FILE *f, const Holder &h) { export_lweKey_toFile(f, (LweKey *) h.obj); };
@@ -235,7 +235,7 @@ inline std::vector<Kind> io_kinds() {
       K.push_back(k); }
     // ---- TLweSample
     { Kind k; k.name = "TLweSample";
-      k.make = [](IoGen &g, int sz) { HP h(new Holder); TLweParams *p = new_TLweParams(sz == 0 ? 4 : 1 << g.rng.below(11), 1 + g.rng.below(2), g.alpha(), g.alpha()); TLweSample *s = new_TLweSample(p);
+      k.make = [](IoGen &g, int sz) { HP h(new Holder); TLweParams *p = new_TLweParams(sz == 0 ? 4 : sz == 3 ? 8192 : 1 << g.rng.below(11), 1 + g.rng.below(2), g.alpha(), g.alpha()); TLweSample *s = new_TLweSample(p);
           fill_tlwe_sample(g, s, p->N, p->k); h->obj = s; h->aux = p; h->dtors.push_back([p] { delete_TLweParams(p); }); h->dtors.push_back([s] { delete_TLweSample(s); }); return h; };
       k.exp_s = [](std::ostream &o, const Holder &h) { export_tlweSample_toStream(o, (TLweSample *) h.obj, (const TLweParams *) h.aux); };
       k.exp_f = [](FILE *f, const Holder &h) { export_tlweSample_toFile(f, (TLweSample *) h.obj, (const TLweParams *) h.aux); };
@@ -249,7 +249,7 @@ inline std::vector<Kind> io_kinds() {
       K.push_back(k); }
     // ---- TLweKey
     { Kind k; k.name = "TLweKey";
-      k.make = [](IoGen &g, int sz) { HP h(new Holder); TLweParams *p = new_TLweParams(sz == 0 ? 4 : 1 << g.rng.below(11), 1 + g.rng.below(2), g.alpha(), g.alpha()); TLweKey *key = new_TLweKey(p);
+      k.make = [](IoGen &g, int sz) { HP h(new Holder); TLweParams *p = new_TLweParams(sz == 0 ? 4 : sz == 3 ? 4096 : 1 << g.rng.below(11), sz == 3 ? 1 : 1 + g.rng.below(2), g.alpha(), g.alpha()); TLweKey *key = new_TLweKey(p);
           for (int i = 0; i < p->k; i++) for (int j = 0; j < p->N; j++) key->key[i].coefs[j] = (int32_t) g.rng.below(2);
           h->obj = key; h->dtors.push_back([p] { delete_TLweParams(p); }); h->dtors.push_back([key] { delete_TLweKey(key); }); return h; };
       k.exp_s = [](std::ostream &o, const Holder &h) { export_tlweKey_toStream(o, (TLweKey *) h.obj); };
@@ -287,7 +287,7 @@ inline std::vector<Kind> io_kinds() {
       K.push_back(k); }
     // ---- TGswKey
     { Kind k; k.name = "TGswKey";
-      k.make = [](IoGen &g, int sz) { HP h(new Holder); TLweParams *tp = new_TLweParams(sz == 0 ? 4 : 1 << g.rng.below(11), 1 + g.rng.below(2), g.alpha(), g.alpha());
+      k.make = [](IoGen &g, int sz) { HP h(new Holder); TLweParams *tp = new_TLweParams(sz == 0 ? 4 : sz == 3 ? 4096 : 1 << g.rng.below(11), 1 + g.rng.below(2), g.alpha(), g.alpha());
           TGswParams *p = new_TGswParams(1 + g.rng.below(3), 2 + g.rng.below(9), tp); TGswKey *key = new_TGswKey(p);
           for (int i = 0; i < tp->k; i++) for (int j = 0; j < tp->N; j++) key->key[i].coefs[j] = (int32_t) g.rng.below(2);
           h->obj = key; h->dtors.push_back([tp] { delete_TLweParams(tp); }); h->dtors.push_back([p] { delete_TGswParams(p); }); h->dtors.push_back([key] { delete_TGswKey(key); }); return h; };
